@@ -4,6 +4,8 @@ import Texel.Model.Small
 import Texel.Model.Pipe
 import Texel.Model.Dispatch
 import Texel.Model.Cli
+import Texel.Model.QuadTree
+import Texel.Model.Tile
 /-! `texeldrv`: the executable model behind a one-line-in, one-line-out protocol (core-only, links as `lean_exe`).
 The Go harness sends the same operation lines to the real code and to this driver and compares the answers. -/
 open Texel
@@ -94,6 +96,21 @@ def pipeRun (c : Pipe.Cfg) (fs : List Nat) (seed : Nat) : Pipe.State × Nat := I
     steps := steps + 1
   return (s, steps)
 
+/-- `isquad n (id idText mw mh tw th nvar oxN oxD oyN oyD corner csN csD)*` (idText `~` = empty) -/
+def parseTMs (ws : List String) : Option (List QT.TM) := do
+  let n ← (← ws.head?).toNat?
+  let toks := ws.tail.toArray
+  if toks.size != 14 * n then none
+  let mut out : List QT.TM := []
+  for i in [0 : n] do
+    let t (k : Nat) : String := toks[14 * i + k]!
+    let int (k : Nat) : Option Int := (t k).toInt?
+    let tm : QT.TM := {
+      id := ← int 0, idText := if t 1 == "~" then "" else t 1, mw := (← int 2).toNat, mh := (← int 3).toNat, tw := (← int 4).toNat, th := (← int 5).toNat,
+      nvar := (← int 6).toNat, ox := (← int 7, ← int 8), oy := (← int 9, ← int 10), corner := (← int 11).toNat, csNum := ← int 12, csDen := ← int 13 }
+    out := out ++ [tm]
+  return out
+
 def handle (line : String) : String :=
   match line.trimAscii.toString.splitOn " " with
   | ["tz", xs, ys] =>
@@ -163,6 +180,20 @@ def handle (line : String) : String :=
       let (s, _) := pipeRun c fs sd
       (if s.returned && c.targets.all (fun tm => s.wDone tm) then "returned " else "stuck ") ++ showReceived c s.received
     | _, _ => "bad-op"
+  | "isquad" :: rest =>
+    match parseTMs rest with
+    | some tms => match QT.isQuadTree tms with
+      | none => "ok"
+      | some k => s!"err {k}"
+    | none => "bad-op"
+  | "tile" :: rest =>
+    -- px py ox oy cs tw th mw mh corner   (the first five over one common denominator)
+    let xs := parseInts rest
+    if xs.size != 10 then "bad-op" else
+    let m : Tile.Matrix := ⟨xs[2]!, xs[3]!, xs[4]!, xs[5]!.toNat, xs[6]!.toNat, xs[7]!.toNat, xs[8]!.toNat, xs[9]!.toNat⟩
+    match Tile.fromNative m xs[0]! xs[1]! with
+    | some (c, r) => s!"{c} {r}"
+    | none => "none"
   | ["tpath", p, ids] =>
     match ids.toNat? with
     | some id => Cli.targetPath p id
